@@ -399,19 +399,24 @@ impl VersionManager {
                 &[deletion.0 as u64, deletion.1 as u64, vacuum_epoch],
             );
         }
+        // Only the deletions that are applied here are handed to the caller for unlinking: a
+        // row-set deleted twice (e.g. by a compaction and a concurrent DROP TABLE) has its
+        // directory removed once, and removing it again would fail and stop the vacuum task.
+        let mut applied = Vec::with_capacity(deletions.len());
         for deletion in &deletions {
             if let Some(rowset) = inner.rowsets.remove(deletion) {
                 match Arc::try_unwrap(rowset) {
                     Ok(rowset) => drop(rowset),
                     Err(_) => panic!("rowset {:?} is still being used", deletion),
                 }
+                applied.push(*deletion);
             } else {
                 warn!(
                     "duplicated deletion dectected, but we can't solve this issue for now -- see https://github.com/risinglightdb/risinglight/issues/566 for more information."
                 );
             }
         }
-        Ok(deletions)
+        Ok(applied)
     }
 
     pub async fn do_vacuum(self: &Arc<Self>) -> StorageResult<()> {
